@@ -484,24 +484,41 @@ func c04JSONRules(r *Run) {
 		r.FailEdge(fn, key, EdgeSpec{Name: "length-not-32", Atom: ordAtomR("32", "len("+what+")"), Bad: "<,>", Want: wantErr(true),
 			Unreach: asInstrs(CallsTo(fn, "copy"))})
 	}
+	// the unique tls.Unmarshal of fn, reading `from`
+	decoder := func(fn *ssa.Function, key, from string) ssa.CallInstruction {
+		c := r.OneCall(fn, key+":unmarshal", "tls.Unmarshal")
+		if c != nil {
+			r.ExpectArg(c, key+":unmarshal.bytes", 0, from)
+		}
+		return c
+	}
 	decoded := func(fn *ssa.Function, key, from, typ string) string {
 		// the DigitallySigned local that tls.Unmarshal fills from `from`
-		c := r.OneCall(fn, key+":unmarshal", "tls.Unmarshal")
+		c := decoder(fn, key, from)
 		if c == nil {
 			return "?"
 		}
-		r.ExpectArg(c, key+":unmarshal.bytes", 0, from)
 		r.ExpectArg(c, key+":unmarshal.into", 1, "new:"+typ+"#*")
 		return "*" + r.D.D(CallArgs(c)[1])
 	}
+	// field `field` of the returned struct is what that tls.Unmarshal decoded: through a local that is
+	// then stored into the field, or in place
+	decodedField := func(fn *ssa.Function, key string, ret ssa.Instruction, field, typ string, c ssa.CallInstruction) {
+		if c == nil {
+			r.Fail(key+"."+field, r.Where(ret), "undecided: no unique tls.Unmarshal whose result could fill "+field)
+			return
+		}
+		r.ExpectDecodedField(fn, key+":unmarshal.into", key+"."+field, ret.(*ssa.Return).Results[0], field, c, 1, typ)
+	}
 	if fn := r.Fn("(*ct.AddChainResponse).ToSignedCertificateTimestamp"); fn != nil {
 		k := "ToSCT"
-		ds := decoded(fn, k, "p0.Signature", "ct.DigitallySigned")
+		c := decoder(fn, k, "p0.Signature")
 		for _, ret := range successReturns(fn) {
 			r.ExpectFields(fn, k, ret.(*ssa.Return).Results[0], map[string]string{
 				"SCTVersion": "p0.SCTVersion", "Timestamp": "p0.Timestamp",
-				"Extensions": dec + "p0.Extensions)#0", "Signature": ds,
+				"Extensions": dec + "p0.Extensions)#0",
 			})
+			decodedField(fn, k, ret, "Signature", "ct.DigitallySigned", c)
 		}
 		r.Check(k+":one-success-return", len(successReturns(fn)) == 1, r.FnPos(fn), fmt.Sprintf("%d success returns", len(successReturns(fn))))
 		if c := r.OneCall(fn, k+":id", "copy"); c != nil {
@@ -513,11 +530,12 @@ func c04JSONRules(r *Run) {
 	}
 	if fn := r.Fn("(*ct.GetSTHResponse).ToSignedTreeHead"); fn != nil {
 		k := "ToSTH"
-		ds := decoded(fn, k, "p0.TreeHeadSignature", "ct.DigitallySigned")
+		c := decoder(fn, k, "p0.TreeHeadSignature")
 		for _, ret := range successReturns(fn) {
 			r.ExpectFields(fn, k, ret.(*ssa.Return).Results[0], map[string]string{
-				"TreeSize": "p0.TreeSize", "Timestamp": "p0.Timestamp", "TreeHeadSignature": ds,
+				"TreeSize": "p0.TreeSize", "Timestamp": "p0.Timestamp",
 			})
+			decodedField(fn, k, ret, "TreeHeadSignature", "ct.DigitallySigned", c)
 		}
 		r.Check(k+":one-success-return", len(successReturns(fn)) == 1, r.FnPos(fn), fmt.Sprintf("%d success returns", len(successReturns(fn))))
 		if c := r.OneCall(fn, k+":root", "copy"); c != nil {
